@@ -34,7 +34,7 @@ def big_values(k, limbs):
     return sorted(vals, key=lambda x: (abs(x).bit_length(), abs(x), x < 0))
 
 
-LADDER_Q = [4, 5, 8, 9, 16, 17, 32, 33]
+LADDER_Q = [4, 5, 8, 9, 16, 17]
 LADDER_T = [4, 5, 7, 8, 9, 15, 16, 17, 31, 32, 33, 63, 64, 65, 127, 128, 129]
 
 
@@ -49,7 +49,7 @@ def ladder_magnitudes(sizes):
 
 
 def ladder_values(tier):
-    """operands whose limb count crosses 8, 16, 32 (thorough: 64, 128) - the sizes at which a fast path would switch"""
+    """operands whose limb count crosses 4, 8, 16 (thorough: 32, 64, 128) - the sizes at which a fast path would switch"""
     vals = {0, 1, -1, 3, (1 << 32) - 1, 1 << 32, -((1 << 64) + 1)}
     for m in ladder_magnitudes(LADDER_Q if tier == 'quick' else LADDER_T):
         vals.add(m)
@@ -145,8 +145,8 @@ def c05_rows(values, rows, text_bits):
             for op in BIN_OPS:
                 if op in ('div', 'rem') and b == 0:
                     continue
-                if op == 'gcd' and min(abs(a), abs(b)).bit_length() > 1100:
-                    continue        # Euclid on the implementation's bit-search division: seconds per pair
+                if op == 'gcd' and min(abs(a), abs(b)).bit_length() > (300 if TIER[0] == 'quick' else 1100):
+                    continue        # Euclid on the implementation's bit-search division: up to seconds per pair
                 e = big_expected(op, a, b)
                 want_text = abs(e).bit_length() <= text_bits
                 r = ['num', 'bop', op, i, j, T, R.lit(e)]
@@ -354,13 +354,29 @@ def ladder_rationals(tier, small=False):
     for n in sizes:
         mags = ladder_magnitudes([n])
         for m in mags:
-            for q in (1, 3, (1 << 32) + 1):
+            for q in ((1, 3) if small and tier == 'quick' else (1, 3, (1 << 32) + 1)):
                 out.append((m, q))
                 out.append((-m, q))
             out.append((1, m))
-            out.append((-7, m))
+            if not (small and tier == 'quick'):
+                out.append((-7, m))
         out.append((mags[2], ladder_magnitudes([n - 1])[2]))
         out.append((-mags[0], mags[2]))
+    return out
+
+
+def near_ties():
+    """(p, q) pairs as close to a small integer k - and to each other - as their denominator allows: k +- 1/q for
+    denominators around 2^53, 2^63, 2^64 and longer ones. Any comparison that approximates gets these wrong."""
+    out = []
+    qs = [(1 << 24) + 1, (1 << 53) + 1, (1 << 53) + 3, (1 << 63) + 1, (1 << 64) + 1, (1 << 64) + (1 << 32) - 1]
+    qs += [ladder_magnitudes([4])[2], ladder_magnitudes([9])[2]]
+    for q in qs:
+        for k in (1, 3, 6, -3):
+            out.append((k, 1))
+            for d in (-1, 1):
+                out.append((k * q + d, q))
+                out.append((k * (q + 2) + d, q + 2))
     return out
 
 
@@ -819,7 +835,7 @@ def run_c07(tier):
     chunk = 8
     tasks = [('rows', pairs, list(range(i, min(i + chunk, nvals)))) for i in range(0, nvals, chunk)]
     tasks.append(('calc', pairs, None))
-    pairs2 = ladder_rationals(tier)
+    pairs2 = ladder_rationals(tier) + near_ties()
     nvals2 = len(set(Fraction(p, q) for p, q in pairs2)) + 1
     tasks += [('rows', pairs2, list(range(i, min(i + 8, nvals2)))) for i in range(0, nvals2, 8)]
     collect(st, pmap(_c07_task, tasks))
@@ -831,7 +847,7 @@ def run_c07(tier):
         'rule': 'state = rational value or NaN; transition = partial_cmp/== on an ordered pair, or one area::calc '
                 'evaluation (area shape x count x popped values); oracle = Fraction order, unordered iff NaN involved',
         'scope': {'distinct_values_incl_nan': nvals, 'ordered_pairs': st.n.get('pairs', 0),
-                  'size_ladder_grid_values': nvals2,
+                  'size_ladder_and_near_tie_grid_values': nvals2,
                   'calc_cases': st.n.get('calc_cases', 0), 'calc_counts': CALC_COUNTS, 'calc_areas': CALC_AREAS},
         'distinct_outcomes': sorted(st.sets.get('outcomes', ()))[:40],
         'samples': [{'cmp': ['5', '10'], 'expected': 'L'}, {'cmp': ['1/2', '1/3'], 'expected': 'G'},
